@@ -56,6 +56,9 @@ func panicToError(e interface{}) error {
 			break
 		}
 	}
+	if fe, ok := e.(fatalExit); ok {
+		return fmt.Errorf("server stops with FATAL %s [at %s]", fe.msg, strings.Join(trace, " < "))
+	}
 	msg := fmt.Sprintf("panic: %v [at %s]", e, strings.Join(trace, " < "))
 	if strings.HasSuffix(origin, "_verif_test.go") || strings.Contains(origin, "/verifkit/") || strings.Contains(origin, "pgregory.net") {
 		return &errInfra{msg}
@@ -195,10 +198,17 @@ func (h *quietHub) Log(name string, level int, file string, line int, msg string
 		h.mu.Unlock()
 	}
 	if level == loghub.FATAL {
+		text := fmt.Sprintf("%s:%d %s", file, line, msg)
 		if h.fatalF != nil {
-			h.fatalF(fmt.Sprintf("%s:%d %s", file, line, msg))
+			h.fatalF(text)
 		}
-		fmt.Fprintf(os.Stderr, "FATAL %s:%d %s\n", file, line, msg)
+		// The server would exit here. On the goroutine that runs the interpreter this is turned into a panic that
+		// unwinds the store code (deferred unlocks run) and is reported as a failure of the case, so that rapid can
+		// shrink it; on any other goroutine the process exits and the driver replays the saved current case.
+		if goid() == atomic.LoadInt64(&driverGoid) {
+			panic(fatalExit{text})
+		}
+		fmt.Fprintf(os.Stderr, "FATAL %s\n", text)
 		os.Exit(3)
 	}
 }
@@ -214,6 +224,29 @@ func (h *quietHub) takeErrors() []string {
 }
 
 var theHub = &quietHub{}
+
+// fatalExit is the panic value used for logger.Fatalf on the interpreter goroutine.
+type fatalExit struct{ msg string }
+
+var driverGoid int64
+
+func goid() int64 {
+	var buf [64]byte
+	n := runtime.Stack(buf[:], false)
+	// "goroutine 123 [running]:"
+	var id int64
+	for _, c := range buf[len("goroutine "):n] {
+		if c < '0' || c > '9' {
+			break
+		}
+		id = id*10 + int64(c-'0')
+	}
+	return id
+}
+
+// markDriver records the calling goroutine as the interpreter goroutine.
+func markDriver() { atomic.StoreInt64(&driverGoid, goid()) }
+
 
 func installQuietLog() {
 	loghub.ErrorLogger.Hub = theHub
@@ -239,6 +272,7 @@ type hookCtl struct {
 }
 
 var hooks = newHookCtl()
+var traceHooks = os.Getenv("VERIF_TRACE") != ""
 
 func newHookCtl() *hookCtl {
 	h := &hookCtl{counts: map[string]int{}}
@@ -259,6 +293,9 @@ func (h *hookCtl) reset(parkRot bool) {
 }
 
 func (h *hookCtl) handle(name string, args ...interface{}) {
+	if traceHooks && !strings.HasPrefix(name, "dc.") {
+		fmt.Fprintln(os.Stderr, append([]interface{}{"HOOK", name}, args...)...)
+	}
 	h.mu.Lock()
 	h.counts[name]++
 	if h.logEvents {
@@ -267,7 +304,8 @@ func (h *hookCtl) handle(name string, args ...interface{}) {
 	var park chan struct{}
 	switch name {
 	case "ds.flush.enter":
-		if chunk := args[1].(int); chunk >= 0 { // only the goroutine spawned at rotation passes a chunk id
+		// the goroutine spawned at rotation passes a chunk id (so does Bucket.close, but on the interpreter goroutine)
+		if chunk := args[1].(int); chunk >= 0 && goid() != atomic.LoadInt64(&driverGoid) {
 			h.rotEnter++
 			if h.parkRot {
 				park = make(chan struct{})
@@ -275,7 +313,7 @@ func (h *hookCtl) handle(name string, args ...interface{}) {
 			}
 		}
 	case "ds.flush.exit":
-		if chunk := args[1].(int); chunk >= 0 {
+		if chunk := args[1].(int); chunk >= 0 && goid() != atomic.LoadInt64(&driverGoid) {
 			h.rotExit++
 		}
 	}
